@@ -147,10 +147,10 @@ func (queue *PacketQueue) Write(p []byte) (int, error) {
 
 // Bytes returns a slice of bytes from the queue.
 //
-// The returned byte slice will always be of length n.
-//
-// If there aren't enough bytes to read n bytes Bytes will return
-// a wrapped io.EOF. The returned byte slice will still be of length n.
+// If there aren't enough bytes to read n bytes Bytes consumes the
+// available bytes and returns ErrNotEnoughBytes and no slice. The
+// n bytes are only allocated once they are known to be available - n
+// is usually a length sent by the server and must not be trusted.
 func (queue *PacketQueue) Bytes(n int) ([]byte, error) {
 	queue.Lock()
 	defer queue.Unlock()
@@ -163,6 +163,20 @@ func (queue *PacketQueue) Bytes(n int) ([]byte, error) {
 		// e.g. a length field of the server that is smaller than the
 		// fixed part it is supposed to include
 		return []byte{}, fmt.Errorf("tds: cannot read %d bytes: %w", n, ErrNotEnoughBytes)
+	}
+
+	available := -queue.indexData
+	for i := queue.indexPacket; i < len(queue.queue) && available < n; i++ {
+		available += len(queue.queue[i].Data)
+	}
+
+	if available < n {
+		// All available packets are consumed by the attempt.
+		if queue.indexPacket < len(queue.queue) {
+			queue.indexPacket = len(queue.queue)
+			queue.indexData = 0
+		}
+		return nil, ErrNotEnoughBytes
 	}
 
 	bs := make([]byte, n)
@@ -207,7 +221,10 @@ func (queue *PacketQueue) Bytes(n int) ([]byte, error) {
 // Byte implements the tds.BytesChannel interface.
 func (queue *PacketQueue) Byte() (byte, error) {
 	bs, err := queue.Bytes(1)
-	return bs[0], err
+	if err != nil {
+		return 0, err
+	}
+	return bs[0], nil
 }
 
 // Uint8 implements the tds.BytesChannel interface.
@@ -225,7 +242,10 @@ func (queue *PacketQueue) Int8() (int8, error) {
 // Uint16 implements the tds.BytesChannel interface.
 func (queue *PacketQueue) Uint16() (uint16, error) {
 	bs, err := queue.Bytes(2)
-	return endian.Uint16(bs), err
+	if err != nil {
+		return 0, err
+	}
+	return endian.Uint16(bs), nil
 }
 
 // Int16 implements the tds.BytesChannel interface.
@@ -237,7 +257,10 @@ func (queue *PacketQueue) Int16() (int16, error) {
 // Uint32 implements the tds.BytesChannel interface.
 func (queue *PacketQueue) Uint32() (uint32, error) {
 	bs, err := queue.Bytes(4)
-	return endian.Uint32(bs), err
+	if err != nil {
+		return 0, err
+	}
+	return endian.Uint32(bs), nil
 }
 
 // Int32 implements the tds.BytesChannel interface.
@@ -249,7 +272,10 @@ func (queue *PacketQueue) Int32() (int32, error) {
 // Uint64 implements the tds.BytesChannel interface.
 func (queue *PacketQueue) Uint64() (uint64, error) {
 	bs, err := queue.Bytes(8)
-	return endian.Uint64(bs), err
+	if err != nil {
+		return 0, err
+	}
+	return endian.Uint64(bs), nil
 }
 
 // Int64 implements the tds.BytesChannel interface.
